@@ -112,6 +112,34 @@ def run(chk, facts):
         chk.ob("R-C07-1", f"handler:{h}", h in allowed, f"{h} has an arm for Node::Reassign" + ("" if h in allowed else " - a second handler bypasses the mutability check"))
     chk.floor("R-C07-1", len(handlers), 2, "functions with a Node::Reassign arm in check::constrain::generate")
 
+    # ---------------- R-C07-6 ----------------
+    # every written name is looked at: the chain from `id.fields(..)` to the collected errors has no adapter that can drop an
+    # element (zip with a shorter list, take, skip, filter, step_by ..)
+    chk.rule("R-C07-6", "check_iden_mut examines every field of the target: no truncating adapter between `fields(..)` and `collect()`")
+    try:
+        cim = syn.one_fn("check_iden_mut", mod="check::constrain::generate::call")
+        chains = []
+        for n in walk(cim["body"]):
+            if n.get("k") == "mcall" and n["m"] == "collect":
+                ch, cur = [], strip(n["recv"])
+                while cur.get("k") in ("mcall", "try"):
+                    if cur.get("k") == "try":
+                        cur = strip(cur["e"])
+                        continue
+                    ch.append(cur["m"])
+                    cur = strip(cur["recv"])
+                if "fields" in ch:
+                    chains.append(list(reversed(ch)))
+        ALLOWED = {"fields", "iter", "into_iter", "flat_map", "map", "cloned", "copied", "enumerate", "inspect"}
+        bad = [m for ch in chains for m in ch if m not in ALLOWED]
+        ok = len(chains) == 1 and not bad
+        chk.ob("R-C07-6", "check_iden_mut:all-fields", ok, f"the mutability errors are collected over every field of the target ({' -> '.join(chains[0])})" if ok else
+               (f"between `id.fields(..)` and the collected errors the chain passes `{bad[0]}`: a field of the target can be dropped before it is looked up "
+                f"(e.g. zip with the top-level positions of a nested tuple), so a `fin` name in that place can be overwritten" if bad else
+                f"{len(chains)} chains from fields(..) to collect() in check_iden_mut"), facts.loc_of(cim))
+    except AnchorError as e:
+        chk.anchor_fail("R-C07-6", e)
+
     # ---------------- R-C07-2 ----------------
     try:
         _decision_table(chk, facts)
@@ -150,6 +178,9 @@ def run(chk, facts):
     from . import envflow
     chk.rule("R-C07-5", "definitions (and with them the recorded mutability) do not escape scope-closing constructs: a mutable re-definition in a branch, loop or function must not replace an outer `fin` definition afterwards")
     envflow.check_vars(chk, facts, "R-C07-5")
+    chk.rule("R-C07-7", "no element is dropped before it is checked: every zip/take/skip in the checker is length-guarded or reviewed (shared census, rules/quant.py)")
+    from .quant import truncation_census
+    truncation_census(chk, facts, "R-C07-7")
     chk.notes.append("C07: Ok-path must-call on MIR; decision table of check_iden_mut enumerated over 16 valuations; insert_var flag provenance.")
 
 
